@@ -4776,7 +4776,12 @@ where
             }
           }
         },
-        token::Value::BYTE(bv) if self.state.ctrl.is_none() => {
+        token::Value::BYTE(bv)
+          if matches!(
+            self.state.ctrl,
+            None | Some(ControlOperator::AND) | Some(ControlOperator::WITHIN)
+          ) =>
+        {
           let expected = match bv {
             ByteValue::UTF8(value) | ByteValue::B16(value) | ByteValue::B64(value) => value,
           };
